@@ -138,7 +138,8 @@ func c04StoreCases(past bool) []c04SCase {
 			cs = append(cs, c04SCase{name: fmt.Sprintf("ttl=%s@t0=%d", c04Dur(ttl), t0), t0: t0,
 				steps: []c04SStep{{op: "set", ttl: ttl}, {op: "pump"}}})
 		}
-		for _, p := range [][2]int64{{100, 3}, {3, 100}, {5, 2}, {2, 5}, {3, 4000}, {4000, 3}, {100, 69}} {
+		// {0, n}: the entry is created without a TTL and gets its FIRST deadline from an update
+		for _, p := range [][2]int64{{100, 3}, {3, 100}, {5, 2}, {2, 5}, {3, 4000}, {4000, 3}, {100, 69}, {0, 3}, {0, 100}, {0, 4000}} {
 			cs = append(cs, c04SCase{name: fmt.Sprintf("update %ds->%ds after 1 tick@t0=%d", p[0], p[1], t0), t0: t0,
 				steps: []c04SStep{{op: "set", ttl: p[0] * c04Sec}, {op: "pump"}, {op: "ticks", secs: 1}, {op: "set", ttl: p[1] * c04Sec}, {op: "pump"}}})
 		}
@@ -192,7 +193,11 @@ func c04StoreRun(c c04SCase) (viol [][3]string, outcome string, nadv int, err er
 			}
 			d = e.expire.Load()
 			dSetAt = len(h.advs)
-			if d < h.vnow+st.ttl || d > h.vnow+st.ttl+50*int64(time.Millisecond) {
+			if st.ttl == 0 {
+				if d != 0 {
+					return nil, "", 0, fmt.Errorf("Set without TTL left deadline %d", d)
+				}
+			} else if d < h.vnow+st.ttl || d > h.vnow+st.ttl+50*int64(time.Millisecond) {
 				// the experiment is void if the process was stalled between shifting the clock and the call
 				return nil, "", 0, fmt.Errorf("clock drift: deadline %d for virtual now %d + ttl %d", d, h.vnow, st.ttl)
 			}
